@@ -92,8 +92,6 @@ def run(tier):
     res.cov["exhaustive"] = True
     scen = []
     for pi, pred in enumerate(MENU):
-        if pred in ("band:sum", "tier:sum,count", "countv>=2", "countv>=3", "median>=2", "median<1|count>=4"):      # seeded runs only (not in the GlobalWin menu)
-            continue
         maxrows = 4 if quick else 5
         cfg = 'SPECIFICATION Spec\nCONSTANTS Groups = {"a","b"} RawVals = {0, 2, 4} Off = 1 MaxRows = %d Pred = "%s" Emit = TRUE\nINVARIANTS EmitScenario\nCHECK_DEADLOCK FALSE\n' % (maxrows, pred)
         r = vlib.tlc(WIN, "GlobalWin", cfg, workers=1, timeout=600)
@@ -175,11 +173,11 @@ def run(tier):
     seqfam.run_scenarios(res, scen, "TraceBatch", tag="global", relayout_p=0.3, retype_p=0.3, rename_p=0.3)
     seqfam.run_pinned(res, "TraceBatch")
     res.cov["distinct_nontrivial"] = len({json.dumps(s["rows"], sort_keys=True) + s["sql"] for s in scen})
-    res.cov["rule"] = ("every row sequence (2 groups x values {NULL,-1,1,3}) of the TLA+ GlobalWin model up to the stated length for each of 8 predicates "
+    res.cov["rule"] = ("every row sequence (2 groups x values {NULL,-1,1,3}) of the TLA+ GlobalWin model up to the stated length for each of 17 predicates "
                        "(single comparisons, AND, OR, OR-of-AND), 3 SELECT shapes (trigger aggregates selected / not selected / differently spelled), NULL vs missing, "
                        "replayed in lock-step on the real engine, plus seeded longer runs with up to 4 groups, plus unthrottled bursts of 230-300 rows against a window goroutine held at its first row (queue size 200); distinct = distinct (SQL, rows)")
     res.assumptions = ASSUME
-    for pred in (["count>=3|max>=3&min<0", "avg>=2"] if quick else [m for m in MENU if ":" not in m]):
+    for pred in (["count>=3|max>=3&min<0", "avg>=2"] if quick else list(MENU)):
         mr = 5 if quick else 6
         cfg = 'SPECIFICATION Spec\nCONSTANTS Groups = {"a","b"} RawVals = {0, 2, 4} Off = 1 MaxRows = %d Pred = "%s" Emit = FALSE\nINVARIANTS FiresExactly Conservation NoFireWhileFalse\nCHECK_DEADLOCK FALSE\n' % (mr, pred)
         seqfam.model(res, WIN, "GlobalWin", cfg, "GlobalWin", {"Pred": pred, "MaxRows": mr, "Groups": 2, "Vals": ["NULL", -1, 1, 3]})
